@@ -356,6 +356,17 @@ func exhaustiveC04(thorough bool, emit func(C04Case) bool) {
 			return
 		}
 	}
+	// twin records: Chrom / Name of equal length that differ in one byte, in one stream
+	if !twinFields(func(a, b gen.B) bool {
+		mk := func(c, n gen.B) BedRec {
+			r := baseBedRec(6)
+			r.Chrom, r.Name = c, n
+			return r
+		}
+		return emit(C04Case{Recs: []BedRec{mk(a, a), mk(b, a), mk(a, b), mk(b, b), mk(a, a)}})
+	}) {
+		return
+	}
 	// multi-byte tokens (BOM, fmt verbs, gzip magic, NEL/NBSP) at the start and inside of Chrom and
 	// Name of the first and of a later record
 	for n := 3; n <= 12; n += 3 {
